@@ -2,6 +2,7 @@ SPECIFICATION Spec
 CONSTANTS
   Alphabet = {97, 67, 122, 53, 50, 36, 45, 46, 95, 32, 34, 92, 1, 127, 128, 255, 0}
   MaxLen = 2
+  ExtraStrings <- DefaultExtras
   PairLen = 1
   Kinds = {"global", "local", "type", "label", "comdat", "mdname", "string"}
   AsImplemented = TRUE
